@@ -31,7 +31,7 @@ Fixpoint md_episode (tr : list tstep) : list nat :=
 (* WHICH CODE the correspondence compares with: the code as it is.  After the repairs have been applied to
    rl4co/envs/routing/mdcpdp/env.py this single definition becomes [repaired] (or the record of the repairs applied);
    the full-strength theorems for [repaired] are already proved (Properties/C0x_mdcpdp.v). *)
-Definition current_code : mdfix := as_is.
+Definition current_code : mdfix := repaired.  (* /repo carries the four MDCPDP "fix:" commits since 2026-10-01 *)
 
 Section Checks.
 Variable CF : mdfix.
@@ -91,7 +91,7 @@ Definition check_C02_with (c : md_case) : Z :=
    4 (lengths booked on the start depot) names the smallest set of repairs after which the model's reward IS the
    objective: code 1000*k + 4; k = 0: unexplained. *)
 Definition fixes (sw lg rt : bool) : mdfix :=
-  {| fx_nd := fx_nd CF; fx_switch := fx_switch CF || sw; fx_leg := fx_leg CF || lg; fx_ret := fx_ret CF || rt |}.
+  {| fx_nd := fx_nd CF; fx_switch := fx_switch CF || sw; fx_leg := fx_leg CF || lg; fx_ret := fx_ret CF || rt; fx_sq := fx_sq CF |}.
 Definition model_reward (F : mdfix) (i : md_inst) (acts : list nat) : option Z :=
   md_reward f32 F i (run (E:=MDCPDP f32 F) i acts).
 Definition close_to (tol : Z) (a : option Z) (b : Z) : bool :=
@@ -103,8 +103,9 @@ Definition check_C03_with (c : md_case) : Z :=
   else
     let full := trace_actions (c_trace c) in
     let ep := md_episode (c_trace c) in
-    let tol := one i * snd (c_rew c) in
-    let r := one i * fst (c_rew c) in
+    let sc := if Nat.eqb (mode i) 3 then one i * one i else one i in      (* units of md_reward, see Spec/MultiDepotPD.v *)
+    let tol := sc * snd (c_rew c) in
+    let r := sc * fst (c_rew c) in
     let model_ok := close_to tol (model_reward CF i full) r in
     match spec_objective i ep with
     | None => if model_ok then 0 else 5        (* not a solution at all: C01's business *)
